@@ -451,3 +451,61 @@ package measure
 //@   loop 0 invariant lastV: len(result.Timestamps) > 0 ==> result.Versions[len(result.Versions)-1] >= lastVersion
 //@   loop 0 invariant started: (lastSid == 0) == (len(result.Timestamps) == 0)
 //@   loop 0 invariant frontier: len(result.Timestamps) > 0 ==> (forall c *blockCursor :: c.inHeap ==> tsBefore(qr.ascTS, result.Timestamps[len(result.Timestamps)-1], c.timestamps[c.idx]) || result.Timestamps[len(result.Timestamps)-1] == c.timestamps[c.idx])
+//
+//@ section C04
+//
+// loadSnapshot, the manifest lookup (fragment contract: this loop only, from an arbitrary state). A part directory found on
+// disk is treated as an orphan - and deleted - only when NO entry of the manifest names it; the manifest is not assumed
+// to be sorted (a merge racing a flush publishes ids out of order).
+//@ func tsTable.loadSnapshot#manifest-lookup
+//@   mode int
+//@   opt fragment writes find
+//@   requires !find
+//@   ensures  orphan-only-if-unlisted: !find ==> (forall k :: 0 <= k && k < len(parts) ==> parts[k] != id)
+//@   ensures  found-only-if-listed: find ==> (exists k :: 0 <= k && k < len(parts) && parts[k] == id)
+//@   loop 0 invariant !find && (forall k :: 0 <= k && k < range_i ==> parts[k] != id)
+//
+//@ section C03
+//
+// getPartsToMerge, the loop that builds the set of part ids the merge will remove from the snapshot (fragment contract: this
+// loop only, from an arbitrary state with an empty set). The set is exactly the ids of the parts the policy chose: a part
+// that is not merged into the output must never be listed, or its data vanishes from queries when the merged part is introduced.
+//@ func tsTable.getPartsToMerge#removed-set
+//@   mode int
+//@   opt fragment writes toBeMerged
+//@   requires toBeMerged != nil && (forall id uint64 :: !haskey(toBeMerged, id))
+//@   requires forall k :: 0 <= k && k < len(dst) ==> dst[k] != nil && dst[k].p != nil
+//@   ensures  every-chosen-part-is-listed: forall k :: 0 <= k && k < len(dst) ==> haskey(toBeMerged, dst[k].p.partMetadata.ID)
+//@   ensures  only-chosen-parts-are-listed: forall id uint64 :: haskey(toBeMerged, id) ==> (exists k :: 0 <= k && k < len(dst) && dst[k].p.partMetadata.ID == id)
+//@   loop 0 invariant toBeMerged != nil && (forall k :: 0 <= k && k < range_i ==> haskey(toBeMerged, dst[k].p.partMetadata.ID))
+//@   loop 0 invariant forall id uint64 :: haskey(toBeMerged, id) ==> (exists k :: 0 <= k && k < range_i && dst[k].p.partMetadata.ID == id)
+//
+// renameConflictColumns: in EVERY tag family that has conflicting columns, each conflicting column gets its typed name and
+// every other column keeps its name - so a value of one type is never appended into a column of another type, and no column
+// is dropped. (Tag families without conflicts are skipped, not a reason to stop.)
+//@ decl func typedName(name string, vt byte) string
+//@ func encodeTypedColumn
+//@   property C03
+//@   assumed name + separator + type suffix; only "a function of (name, type)" is used
+//@   pure
+//@   ensures result == typedName(name, byte(vt))
+//@ spec func conflicting(cm map[string]map[string]struct{}, fam string, col string) bool = len(cm) != 0 && haskey(cm, fam) && cm[fam] != nil && haskey(cm[fam], col)
+//@ func renameConflictColumns
+//@   property C03
+//@   mode int
+//@   opt transparent columnFamily
+//@   requires b != nil
+//@   requires distinct-column-arrays: forall p, q :: 0 <= p && p < q && q < len(b.tagFamilies) ==> !sameobj(b.tagFamilies[p].columns, b.tagFamilies[q].columns)
+//@   modifies allof(column.name)
+//@   ensures  renamed-exactly-the-conflicting: forall i, j :: 0 <= i && i < len(b.tagFamilies) && 0 <= j && j < len(b.tagFamilies[i].columns) ==>
+//@     b.tagFamilies[i].columns[j].name == ite(conflicting(conflictColumns, b.tagFamilies[i].name, old(b.tagFamilies[i].columns[j].name)), typedName(old(b.tagFamilies[i].columns[j].name), byte(b.tagFamilies[i].columns[j].valueType)), old(b.tagFamilies[i].columns[j].name))
+//@   loop 0 invariant done: forall p, j :: 0 <= p && p < range_i && 0 <= j && j < len(b.tagFamilies[p].columns) ==>
+//@     b.tagFamilies[p].columns[j].name == ite(conflicting(conflictColumns, b.tagFamilies[p].name, old(b.tagFamilies[p].columns[j].name)), typedName(old(b.tagFamilies[p].columns[j].name), byte(b.tagFamilies[p].columns[j].valueType)), old(b.tagFamilies[p].columns[j].name))
+//@   loop 0 invariant todo: forall p, j :: range_i <= p && p < len(b.tagFamilies) && 0 <= j && j < len(b.tagFamilies[p].columns) ==> b.tagFamilies[p].columns[j].name == old(b.tagFamilies[p].columns[j].name)
+//@   loop 1 invariant samehdr(cc, b.tagFamilies[i].columns) && columns != nil && columns == conflictColumns[b.tagFamilies[i].name] && len(conflictColumns) != 0 && haskey(conflictColumns, b.tagFamilies[i].name)
+//@   loop 1 invariant done: forall p, j :: 0 <= p && p < i && 0 <= j && j < len(b.tagFamilies[p].columns) ==>
+//@     b.tagFamilies[p].columns[j].name == ite(conflicting(conflictColumns, b.tagFamilies[p].name, old(b.tagFamilies[p].columns[j].name)), typedName(old(b.tagFamilies[p].columns[j].name), byte(b.tagFamilies[p].columns[j].valueType)), old(b.tagFamilies[p].columns[j].name))
+//@   loop 1 invariant todo: forall p, j :: i < p && p < len(b.tagFamilies) && 0 <= j && j < len(b.tagFamilies[p].columns) ==> b.tagFamilies[p].columns[j].name == old(b.tagFamilies[p].columns[j].name)
+//@   loop 1 invariant row-done: forall j :: 0 <= j && j < range_i ==>
+//@     cc[j].name == ite(haskey(columns, old(b.tagFamilies[i].columns[j].name)), typedName(old(b.tagFamilies[i].columns[j].name), byte(cc[j].valueType)), old(b.tagFamilies[i].columns[j].name))
+//@   loop 1 invariant row-todo: forall j :: range_i <= j && j < len(cc) ==> cc[j].name == old(b.tagFamilies[i].columns[j].name)
